@@ -1,5 +1,4 @@
 """Properties not claimed, with the reason (kept in step with DESIGN.md §2)."""
 UC = "check under construction in this round (see DESIGN.md §1); not claimed until its harnesses are committed and pass on the unchanged tree"
 NOT_APPLICABLE = {
-    "C15": "migration is file-system orchestration (temp file, hard link, identity stamps) around two whole store instances; no part of it is a bounded computation the solver engines can reach",
 }
